@@ -148,6 +148,11 @@ def run_property(prop, rules, tier, seed, level_text, assumptions):
     except AnalysisError as e:
         print("ANALYSIS-ERROR property=%s: %s" % (prop, e))
         return 2
+    except Exception as e:      # noqa: BLE001 - a defect of the analysis itself is never a verdict about the code
+        import traceback
+        tb = traceback.format_exc().strip().splitlines()
+        print("ANALYSIS-ERROR property=%s: internal error of the analysis (%s: %s) at %s" % (prop, type(e).__name__, e, tb[-3].strip() if len(tb) >= 3 else "?"))
+        return 2
     known = load_known()
     known_keys = {k["key"]: k for k in known.get("findings", []) if k.get("status") == "known"}
     viols = []
